@@ -252,7 +252,10 @@ class Model(LPModel):
 
             eye_indices = [item for inner in primal.qmat for item in inner]
             eye_block = dual_lp.linear[eye_indices, :]
-            if len(eye_block.data) + 1 == len(eye_block.indptr):
+            head_block = dual_lp.linear[[inner[0] for inner in primal.qmat], :]
+            if (len(eye_block.data) + 1 == len(eye_block.indptr) and
+                    (abs(eye_block.data) == 1).all() and (head_block.data == 1).all() and
+                    len(set(eye_block.indices)) == len(eye_block.indices)):
                 lin_indices = [ind for ind in range(primal.linear.shape[1])
                                if ind not in eye_indices]
                 linear = dual_lp.linear[lin_indices, :]
